@@ -8,6 +8,8 @@ use crate::runner::{Ctx, PropDyn};
 pub mod c01;
 pub mod c03;
 pub mod c05;
+pub mod c09;
+pub mod c11;
 pub mod c19;
 
 pub type PropList = Vec<(Box<dyn PropDyn>, u32, u32)>;
@@ -38,6 +40,18 @@ pub fn all() -> Vec<Check> {
             props: c05::props,
             describe: c05::describe,
             sweeps: Some(c05::sweeps),
+        },
+        Check {
+            id: "C09",
+            props: c09::props,
+            describe: c09::describe,
+            sweeps: Some(c09::sweeps),
+        },
+        Check {
+            id: "C11",
+            props: c11::props,
+            describe: c11::describe,
+            sweeps: Some(c11::sweeps),
         },
         Check {
         id: "C19",
